@@ -64,6 +64,42 @@ def symbols_of(exprs):
     return names
 
 
+def uninterpreted_symbols(e):
+    seen, names = set(), set()
+    stack = [e]
+    while stack:
+        t = stack.pop()
+        if t.get_id() in seen:
+            continue
+        seen.add(t.get_id())
+        if z3.is_quantifier(t):
+            stack.append(t.body())
+        elif z3.is_app(t):
+            if t.decl().kind() == z3.Z3_OP_UNINTERPRETED:
+                names.add(t.decl().name())
+            stack.extend(t.children())
+    return names
+
+
+def cone_of_influence(pc, goal):
+    """hypotheses that share (transitively) an uninterpreted symbol with the goal.
+    Dropping hypotheses only weakens the premises: a discharged sliced query implies the
+    full one; slicing is therefore used for discharging only, never for refuting."""
+    items = [(p, uninterpreted_symbols(p)) for p in pc if is_z3(p)]
+    rel = set(uninterpreted_symbols(goal))
+    chosen = [False] * len(items)
+    changed = True
+    while changed:
+        changed = False
+        for i, (p, syms) in enumerate(items):
+            if not chosen[i] and (syms & rel or not syms):
+                chosen[i] = True
+                if syms - rel:
+                    rel |= syms
+                    changed = True
+    return [p for (p, _), c in zip(items, chosen) if c]
+
+
 def background_for(exprs):
     names = symbols_of(exprs)
     return BACKGROUND + [ax for k, ax in TRIGGERED_AXIOMS.items() if k in names]
@@ -101,7 +137,8 @@ class SeqV:
             for k in range(len(self.items) - 1, -1, -1):
                 out = self.items[k] if out is None else ite(i == k, self.items[k], out)
             if out is None:
-                raise Unsupported("index into empty concrete list")
+                # only reachable under a vacuous range guard (0 <= i < 0)
+                return z3.Const("undef!elem", U)
             return out
         return self.getter(i)
 
@@ -439,7 +476,12 @@ class Engine:
         self.if_ord = {}
         self.loop_ord = {}
         n_if = n_loop = 0
-        for sub in ast.walk(fn.node):
+        def preorder(n):
+            yield n
+            for ch in ast.iter_child_nodes(n):
+                yield from preorder(ch)
+
+        for sub in preorder(fn.node):  # source order
             if isinstance(sub, (ast.If, ast.IfExp)):
                 self.if_ord[id(sub)] = n_if
                 n_if += 1
@@ -939,10 +981,10 @@ class Engine:
         return names, mutated
 
     def havoc(self, st, names, mutated, tag):
-        for n in names:
+        for n in sorted(names):
             if n in st.env:
                 st.env[n] = self.fresh_like(st, st.env[n], f"{n}@{tag}")
-        for n in mutated:
+        for n in sorted(mutated):
             v = st.env.get(n)
             if isinstance(v, Ref) and isinstance(st.heap[v.n], HList):
                 old = st.heap[v.n].seq
@@ -984,7 +1026,7 @@ class Engine:
         except Unsupported:
             ex = None
         if ex is None:
-            raise Unsupported(f"cannot infer element kind of list {name}; declare it in seq_kinds")
+            ex = z3.Const("undef!elem", U)  # element kind unknown: opaque objects
         uid = next(self.counter)
 
         def shape(v, suffix):
@@ -1057,7 +1099,82 @@ class Engine:
             st.pc.append(lift(self.eval_spec(text, st, {"_k": k, "_n": seq.length, "_seq": seq})))
 
     def s_While(self, node, st):
-        raise Unsupported(f"while loop at line {node.lineno} (no while support in this engine)")
+        """while loop cut with contract invariants; optional `decreases` (termination)"""
+        k_ord = self.loop_ord[id(node)]
+        spec = self.c.loops.get(k_ord)
+        if spec is None:
+            raise Unsupported(f"while loop {k_ord} (line {node.lineno}) has no invariant")
+        if node.orelse:
+            raise Unsupported("while-else")
+        names, mutated = self.modified_names(node.body)
+        res = []
+        dummy = SeqV(0, None, [])
+        self.check_invariants(st, spec, 0, dummy, f"loop{k_ord}.entry")
+        # arbitrary iteration
+        s_it = st.copy()
+        s_it.decisions.append(f"loop{k_ord}:iter")
+        self.havoc(s_it, names, mutated, f"L{k_ord}i")
+        self.havoc_fields(s_it, node.body, f"L{k_ord}i")
+        self.assume_invariants(s_it, spec, 0, dummy)
+        for s1, c, e in self.eval(node.test, s_it):
+            if e:
+                res.append(self._raise_out(s1, e))
+                continue
+            for s2, side in self.fork(s1, self.truthy(s1, c), f"while{k_ord}"):
+                if not side:
+                    continue
+                variant0 = None
+                if spec.get("decreases"):
+                    variant0 = self.eval_value(spec["decreases"], s2)
+                for s3, o in self.exec_block(node.body, s2):
+                    if o.kind in ("next", "continue"):
+                        self.check_invariants(s3, spec, 0, dummy, f"loop{k_ord}.preserve")
+                        if variant0 is not None:
+                            v1 = self.eval_value(spec["decreases"], s3)
+                            self.oblige(s3, f"loop{k_ord}.decreases", z3_and(lift(v1) < lift(variant0), lift(variant0) >= 0), spec.get("decreases_role", "auxiliary"), "decreases")
+                    elif o.kind == "break":
+                        res.append((s3, Out("next")))
+                    else:
+                        res.append((s3, o))
+        # exit
+        s_af = st.copy()
+        s_af.decisions.append(f"loop{k_ord}:exit")
+        self.havoc(s_af, names, mutated, f"L{k_ord}x")
+        self.havoc_fields(s_af, node.body, f"L{k_ord}x")
+        self.assume_invariants(s_af, spec, 0, dummy)
+        for s1, c, e in self.eval(node.test, s_af):
+            if e:
+                res.append(self._raise_out(s1, e))
+                continue
+            for s2, side in self.fork(s1, self.truthy(s1, c), f"while{k_ord}x"):
+                if not side:
+                    res.append((s2, Out("next")))
+        return res
+
+    def havoc_fields(self, st, body, tag):
+        """attributes written inside a loop body lose their recorded value"""
+        written = set()
+        for stmt in body:
+            for sub in ast.walk(stmt):
+                if isinstance(sub, ast.Attribute) and isinstance(sub.ctx, ast.Store):
+                    written.add(sub.attr)
+        for key in list(st.fields):
+            if key[1] in written:
+                v = st.fields[key]
+                try:
+                    st.fields[key] = self.fresh_like(st, v, f"{key[1]}@{tag}")
+                except Unsupported:
+                    del st.fields[key]
+
+    def eval_value(self, text, st):
+        node = ast.parse(text, mode="eval").body
+        s = st.copy()
+        s.env = dict(s.env)
+        s.env["__spec__"] = True
+        outs = self.eval(node, s)
+        if len(outs) != 1 or outs[0][2] is not None:
+            raise Unsupported(f"contract expression forked or raised: {text}")
+        return outs[0][1]
 
     def s_Break(self, node, st):
         return [(st, Out("break"))]
@@ -1080,6 +1197,12 @@ class Engine:
                 return SeqV.concrete(list(h.items.keys()))
         if isinstance(v, tuple):
             return SeqV.concrete(v)
+        if is_z3(v) and v.sort() == U:
+            # opaque iterable: unknown length, uninterpreted elements
+            ln = z3.Function("len_U", U, z3.IntSort())(v)
+            st.pc.append(ln >= 0)
+            item = z3.Function("item_U", U, z3.IntSort(), U)
+            return SeqV(ln, lambda i: item(v, lift(i)))
         raise Unsupported(f"iteration over {type(v).__name__}")
 
     # ------------------------------------------------------------------ spec expressions
@@ -1521,6 +1644,18 @@ class Engine:
 
     def e_SetComp(self, node, st):
         return self._comp(node, st, "set")
+
+    def e_DictComp(self, node, st):
+        """only the opaque case: the result is an arbitrary (fresh) mapping; nothing is assumed about it"""
+        if len(node.generators) != 1:
+            raise Unsupported("nested dict comprehension")
+        out = []
+        for s, it, e in self.eval(node.generators[0].iter, st):
+            if e:
+                out.append((s, None, e))
+            else:
+                out.append((s, self.fresh("dictcomp", U), None))
+        return out
 
     def _comp(self, node, st, kind):
         if len(node.generators) != 1:
